@@ -27,6 +27,8 @@ from world import HarnessError    # noqa: E402
 
 DEFAULT_SEED = 20261001
 KNOWN_FINDINGS = os.path.join(VERIF, 'known_findings.json')
+OUT = os.environ.get('VERIF_OUT', VERIF)      # evidence/ and replays/ go here
+RECORD = bool(os.environ.get('VERIF_RECORD_DIGESTS'))
 
 
 def run_seed(verif_seed, prop, i):
@@ -79,8 +81,10 @@ class Agg(object):
         self.samples = []
         self.harness = []         # (i, text)
         self.extra = {}
+        self.digest_list = []
 
     def merge(self, o):
+        self.digest_list += o.digest_list
         self.evaluations += o.evaluations
         self.base_scenarios += o.base_scenarios
         self.nontrivial_digests |= o.nontrivial_digests
@@ -130,6 +134,8 @@ def run_chunk(args):
                 agg.evaluations += 1
                 dg = tr.digest()
                 agg.all_digests.add(_d8(dg))
+                if RECORD:
+                    agg.digest_list.append((i, j, dg))
                 if v['nontrivial']:
                     agg.nontrivial_digests.add(_d8(dg))
                 for k, val in v['probes'].items():
@@ -227,9 +233,9 @@ def minimise(spec, sc, sig, budget=400):
 
 
 def write_replay(prop, sc, sig, digest, detail, tag='min'):
-    os.makedirs(os.path.join(VERIF, 'replays'), exist_ok=True)
+    os.makedirs(os.path.join(OUT, 'replays'), exist_ok=True)
     h = hashlib.sha256(sig.encode()).hexdigest()[:10]
-    path = os.path.join(VERIF, 'replays', '%s-%s.json' % (prop, h))
+    path = os.path.join(OUT, 'replays', '%s-%s.json' % (prop, h))
     doc = {'property': prop, 'signature': sig, 'digest': digest,
            'detail': jsonable(detail), 'scenario': sc}
     if isinstance(sc.get('inst'), dict):
@@ -267,7 +273,7 @@ def replay_in_fresh_interpreter(prop, path):
 # ---------------------------------------------------------------------------
 def write_evidence(prop, spec, tier, verif_seed, n, agg, wall, violations_n,
                    notes=None):
-    os.makedirs(os.path.join(VERIF, 'evidence'), exist_ok=True)
+    os.makedirs(os.path.join(OUT, 'evidence'), exist_ok=True)
     samples = []
     for s in agg.samples[:3]:
         samples.append(jsonable(s))
@@ -309,7 +315,7 @@ def write_evidence(prop, spec, tier, verif_seed, n, agg, wall, violations_n,
            'level': spec.level, 'coverage': cov,
            'assumptions': spec.assumptions, 'wall_s': round(wall, 2),
            'violations': violations_n}
-    path = os.path.join(VERIF, 'evidence', '%s.json' % prop)
+    path = os.path.join(OUT, 'evidence', '%s.json' % prop)
     with open(path, 'w') as f:
         json.dump(doc, f, indent=1, sort_keys=True, default=jsonable)
     return path
